@@ -4,6 +4,7 @@ import Driver.Tk
 import Driver.Train
 import Driver.Dict
 import Driver.Cli
+import Driver.Kytea
 /-! `vdriver`: reads one case per line on stdin, writes one response line per case. -/
 open V V.Drv
 
@@ -13,6 +14,9 @@ def handle (line : String) : String :=
   | "H" :: cfg :: preds :: ops :: _ => runH cfg preds ops
   | "F" :: cfg :: m :: pt :: h :: _ => runF cfg m pt h
   | "E" :: h :: _ => runE h
+  | "KYE" :: r => runKy ("KYE" :: r)
+  | "KY" :: r => runKy ("KY" :: r)
+  | "KYX" :: r => runKy ("KYX" :: r)
   | "CP" :: fl :: m :: h :: cl :: _ => runCP fl m h cl
   | "CE" :: fl :: m :: h :: cl :: _ => runCE fl m h cl
   | "RD" :: r => runDict ("RD" :: r)
